@@ -1,5 +1,8 @@
 """C11 - Access list is enforced on announce, on cleaning and across reloads."""
+import os
 import random
+import socket
+import time
 
 from vlib import *
 from storage import *
@@ -163,6 +166,169 @@ def random_reload_behaviours(tracker, seed, nruns, nops, first_run):
     return out
 
 
+
+# ---------------------------------------------------------------------------
+# end to end: the gate in the real socket workers, reload through a real SIGUSR1, cleaning by the
+# real cleaning task
+
+def e2e(ctx, rnd):
+    import signal
+    from net import Tracker, free_port, udp_wait_ready, tcp_wait_ready, UdpClient, connect_req, announce_req, \
+        scrape_req, decode_reply, info_hash, peer_id
+    import udp_e2e
+    import http_e2e
+    import ws_e2e
+    trace = []
+    hashes = [1, 2, 3]
+
+    def files(rn):
+        good1 = {"kind": "good", "hashes": [1, 2]}
+        good2 = {"kind": "good", "hashes": [2, 3]}
+        bad = {"kind": "bad", "hashes": [1], "at": rn.choice(("first", "middle", "last"))}
+        missing = {"kind": "missing"}
+        return [good2, bad, missing, good1]
+
+    def write(path, f):
+        t = file_text(f, rnd)
+        if t is None:
+            if os.path.exists(path):
+                os.remove(path)
+        else:
+            with open(path, "w") as fh:
+                fh.write(t)
+
+    def drive(kind, mode, run_id, backend=None):
+        alist = ctx.path("e2e_alist_%s_%s.txt" % (kind, mode))
+        initial = {"kind": "good", "hashes": [1, 2]}
+        write(alist, initial)
+        if kind == "udp":
+            port = free_port()
+            cfg = udp_e2e.udp_config(port, backend, mode=mode, alist=alist)
+            cfg["cleaning"]["torrent_cleaning_interval"] = 1
+        elif kind == "http":
+            port = free_port(socket.SOCK_STREAM)
+            cfg = http_e2e.http_config(port, 2, 2, True, mode=mode, alist=alist)
+            cfg["cleaning"]["torrent_cleaning_interval"] = 1
+        else:
+            port = free_port(socket.SOCK_STREAM)
+            cfg = ws_e2e.ws_config(port, 2, 2, addr="[::]")
+            cfg["access_list"] = {"mode": mode, "path": alist}
+            cfg["cleaning"]["torrent_cleaning_interval"] = 1
+        t = Tracker(ctx, kind, cfg, "c11_%s_%s_%s" % (kind, backend or "x", mode))
+        cl = None
+        try:
+            if kind == "udp":
+                udp_wait_ready(("127.0.0.1", port), tracker=t)
+                cl = UdpClient("127.0.0.2", ("127.0.0.1", port))
+                cl.send(connect_req(1))
+                cid = decode_reply(cl.recv(2.0)[0], 4)["conn_id"]
+            elif kind == "http":
+                tcp_wait_ready(("127.0.0.1", port), tracker=t)
+                cl = http_e2e.HttpConn("127.0.0.2", ("127.0.0.1", port))
+            else:
+                tcp_wait_ready(("127.0.0.1", port), tracker=t)
+                cl = ws_e2e.WsClient("A", "127.0.0.2", ("127.0.0.1", port))
+            trace.append({"ev": "reset", "run": run_id, "tracker": kind, "backend": backend or "", "mode": mode,
+                          "initial": initial["hashes"]})
+            n = [0]
+
+            def announce(h):
+                n[0] += 1
+                if kind == "udp":
+                    cl.send(announce_req(cid, 100 + n[0], info_hash(h), peer_id(1), 1, "started", 7000 + n[0] % 3))
+                    r = cl.recv(2.0)
+                    if not r:
+                        raise ToolError("no reply to a UDP announce with a valid connection id")
+                    d = decode_reply(r[0], 4)
+                    acc = d["kind"] == "announce"
+                elif kind == "http":
+                    cl.send_split(http_e2e.request_bytes(http_e2e.announce_path(h, 7000 + n[0] % 3)), [])
+                    out = cl.read_reply()
+                    if out.get("outcome") != "reply":
+                        raise ToolError("no HTTP reply: %s" % out)
+                    acc = out["reply"]["kind"] == "announce"
+                else:
+                    cl.send_text(ws_e2e.announce_msg(h, 1, "started", 1, [], []))
+                    got = ws_e2e.settle([cl], 0.2)
+                    fr = [ws_e2e.abstract_frame(m, nm) for nm, m in got]
+                    if len(fr) != 1:
+                        raise ToolError("expected one frame, got %s" % fr)
+                    acc = fr[0]["kind"] == "announce"
+                trace.append({"ev": "announce", "h": h, "accepted": acc})
+
+            def present(asked):
+                if kind == "udp":
+                    cl.send(scrape_req(cid, 999, [info_hash(h) for h in asked]))
+                    d = decode_reply(cl.recv(2.0)[0], 4)
+                    return [h for h, s in zip(asked, d["stats"]) if s[0] + s[1] > 0]
+                if kind == "http":
+                    cl.send_split(http_e2e.request_bytes(http_e2e.scrape_path(asked)), [])
+                    out = cl.read_reply()
+                    return [f[0] for f in out["reply"]["files"] if f[1] + f[2] > 0]
+                cl.send_text(ws_e2e.scrape_msg(asked))
+                got = ws_e2e.settle([cl], 0.2)
+                fr = [ws_e2e.abstract_frame(m, nm) for nm, m in got]
+                return [f[0] for f in fr[0]["files"] if f[1] + f[2] > 0] if fr else []
+
+            for h in hashes:
+                announce(h)
+            for f in files(rnd):
+                write(alist, f)
+                t.signal(signal.SIGUSR1)
+                time.sleep(0.4)
+                trace.append({"ev": "reload", "file": f})
+                for h in hashes:
+                    announce(h)
+                time.sleep(2.3)          # at least one cleaning pass (interval 1 s)
+                trace.append({"ev": "cleaned", "asked": hashes, "present": present(hashes)})
+            if not t.alive():
+                raise ToolError("tracker died: " + t.stderr()[-300:])
+        finally:
+            if cl:
+                cl.close()
+            t.stop()
+
+    import threading
+    jobs = [("udp", "allow", 0, "mio"), ("udp", "deny", 1, "uring"), ("http", "deny", 2, None), ("ws", "allow", 3, None)]
+    if not ctx.quick():
+        jobs += [("udp", "deny", 4, "mio"), ("udp", "allow", 5, "uring"), ("http", "allow", 6, None), ("ws", "deny", 7, None)]
+    # the traces of concurrent jobs must not interleave: run each into its own list
+    results = {}
+    errors = []
+
+    def work(j):
+        nonlocal trace
+        local = []
+        try:
+            # rebind the closure's list for this job
+            drive_into(local, *j)
+            results[j[2]] = local
+        except Exception as e:
+            errors.append("%s: %r" % (j, e))
+
+    def drive_into(local, kind, mode, run_id, backend):
+        nonlocal trace
+        saved = trace
+        trace = local
+        try:
+            drive(kind, mode, run_id, backend)
+        finally:
+            trace = saved
+
+    for j in jobs:          # sequential: `trace` is rebound per job
+        work(j)
+    if errors:
+        raise ToolError("; ".join(errors)[:500])
+    tp = ctx.path("alist_e2e.ndjson")
+    with open(tp, "w") as f:
+        for k in sorted(results):
+            for e in results[k]:
+                f.write(json.dumps(e, separators=(",", ":")) + "\n")
+    validate_and_report(ctx, "AccessList_Trace", "AccessList_Trace.cfg", tp, "e2e",
+                        lambda ev, p, s: {"part": "e2e", "ev": ev.get("ev") if isinstance(ev, dict) else None})
+    ctx.coverage["end_to_end_runs"] = ["%s/%s/%s" % (j[0], j[3] or "-", j[1]) for j in jobs]
+
+
 def run(ctx):
     rnd = random.Random(ctx.seed + 110)
     graphs = {}
@@ -205,6 +371,7 @@ def run(ctx):
                         "ops": [o for o in beh[-1]["ops"] if o["op"] in ("reload", "clean")][:3]})
     if seen_rejected == 0:
         raise ToolError("vacuity: no announce was ever rejected by the gate")
+    e2e(ctx, rnd)
     ctx.coverage.update({
         "model_edges": total_edges, "model_edges_covered": covered, "announces_rejected_by_gate": seen_rejected,
         "rule": "every transition of AccessList.tla (modes off/allow/deny; good files over all subsets, files "
@@ -214,6 +381,6 @@ def run(ctx):
                 "reload results, gate decisions, and the stored state after every cleaning pass",
     })
     ctx.assumptions += [
-        "API level: the three-line gate of the socket workers (allows(mode, hash) before forwarding) is "
-        "emulated by the executors; SIGUSR1-driven reloads of running trackers are outside this check",
+        "API-level runs emulate the socket workers' three-line gate; the end-to-end runs exercise the real gate, "
+        "SIGUSR1 reload and cleaning task of running trackers (UDP mio/io_uring, HTTP, WebTorrent)",
     ]
